@@ -164,6 +164,7 @@ def main():
     ap.add_argument("--only", default="")
     ap.add_argument("--out", default=os.path.join(V, "mutation", "RESULTS.json"))
     ap.add_argument("--list", action="store_true")
+    ap.add_argument("--resume", action="store_true", help="keep the results already in --out and skip those mutants")
     a = ap.parse_args()
     muts = enumerate_mutants()
     if a.only: muts = [m for m in muts if re.search(a.only, m["file"] + ":" + m["fn"] + ":" + m["op"])]
@@ -171,6 +172,11 @@ def main():
         from collections import Counter
         print(len(muts), Counter(m["file"] for m in muts)); return
     random.Random(a.seed).shuffle(muts)
+    prior = []
+    if a.resume and os.path.exists(a.out):
+        prior = json.load(open(a.out))
+        done = {(m["file"], m["line"], m["op"], m["new"]) for m in prior}
+        muts = [m for m in muts if (m["file"], m["line"], m["op"], m["new"]) not in done]
     muts = muts[:a.limit]
     os.makedirs(os.path.dirname(a.out), exist_ok=True)
     os.makedirs(SCR, exist_ok=True)
@@ -183,7 +189,7 @@ def main():
             sh("git checkout -q --detach %s && git checkout -q -- . && git clean -fdq" % sh("git -C %s rev-parse HEAD" % REPO)[1].strip(), cwd=w)
         rc, o = sh("rsync -a --delete --exclude .git --exclude violations --exclude seeded --exclude mutation --exclude evidence %s/ %s/" % (V, v)); assert rc == 0, o
         os.makedirs(os.path.join(v, "evidence"), exist_ok=True)
-    results, lock = [], threading.Lock()
+    results, lock = list(prior), threading.Lock()
     ths = [threading.Thread(target=worker, args=(i, muts, results, lock, a.out)) for i in range(a.workers)]
     for t in ths: t.start()
     for t in ths: t.join()
